@@ -176,10 +176,11 @@ def finalize(rep, cases, results, tier, seed):
         # With three or more rungs the peak must keep growing over the last two steps to be called growth.
         # how many of the workers hold a file pair at the very moment of the peak varies from run to run: the slack grows with them
         slack = 16 + 2 * lo["workers"]
-        # ... and a small tree may not fill the queue (a deep chain feeds the dispatcher slowly): growth has to be in proportion to
-        # the tree, not a step of a few hundred descriptors from "queue not yet full" to "queue full"
+        # ... and a deep chain feeds the dispatcher slowly, so its small rung may not fill the queue: there (only) growth has to be in
+        # proportion to the tree, not a step from "queue not yet full" to "queue full"
+        deep = "deep-tree" in lo["sname"]
         def grew(a, c):
-            return c["peak"] > a["peak"] + slack and c["peak"] - a["peak"] >= min(0.4 * (c["n"] - a["n"]), 500)
+            return c["peak"] > a["peak"] + slack and (not deep or c["peak"] - a["peak"] >= min(0.4 * (c["n"] - a["n"]), 500))
         growing = len(runs) >= 2 and grew(lo, hi)
         if growing and len(runs) >= 3:
             growing = grew(runs[-2], runs[-1]) and grew(runs[-3], runs[-2])
